@@ -19,7 +19,8 @@ PROP = {
     "2400851": "C13", "1b3be9a": "C02", "575bd95": "C09", "ef72647": "C09", "06b6ac2": "C09", "d46a4a8": "C01",
     "14e888f": "C02", "ba5c363": "C18", "09f7016": "C14", "fc27db7": "C07",
     "3d17662": "C01", "d778289": "C04", "e0c8da7": "C04", "ad4561c": "C04", "ddfcf5e": "C01", "f587111": "C03",
-    "a96d67a": "C03", "b4eb718": "C04", "9c833c0": "C18", "5909a48": "C03", "4dc535c": "C07", "95e2358": "C01", "8228a47": "C15", "d494aca": "C15", "8fad902": "C11", "57b6014": "C01", "38111cb": "C05", "76f56ed": "C01", "f3056f7": "C07", "caf06d7": "C09",
+    "a96d67a": "C03", "b4eb718": "C04", "9c833c0": "C18", "5909a48": "C03",
+    "5ced18f": "C13", "4dc535c": "C07", "95e2358": "C01", "8228a47": "C15", "d494aca": "C15", "8fad902": "C11", "57b6014": "C01", "38111cb": "C05", "76f56ed": "C01", "f3056f7": "C07", "caf06d7": "C09",
 }
 
 
